@@ -90,6 +90,12 @@ class LM2(LM):
         self.more = more
 
 
+class LM3(LM2):
+    """Third level: re-declares empty slots (data slots live in the intermediate base)."""
+
+    __slots__ = ()
+
+
 class HNode(Hooks, Node):
     pass
 
@@ -179,6 +185,21 @@ class FalsyLM(Hooks, LightNodeMixin):
 
     def __repr__(self):
         return "FalsyLM(%s)" % (self.name,)
+
+
+class PropNode(Hooks, Node):
+    """A target that implements one of its attributes through the class: a property with setter."""
+
+    @property
+    def lng(self):
+        try:
+            return self.__dict__["_lng_store"]
+        except KeyError:
+            raise AttributeError("lng")
+
+    @lng.setter
+    def lng(self, value):
+        self.__dict__["_lng_store"] = value
 
 
 class FalsyAny(Hooks, AnyNode):
@@ -436,14 +457,18 @@ def _jsonable(x):
     return x
 
 
-def run_call(rec, family, call, plan, snaps_on=True):
-    """Execute one call on the live universe of ``rec`` under ``plan``."""
+def run_call(rec, family, call, plan, snaps_on=True, pre=None):
+    """Execute one call on the live universe of ``rec`` under ``plan``.
+
+    ``pre``: the state the universe is known to be in (freshly materialised from a model state): then the
+    nodes are NOT read before the call - reading ``children`` materialises lazily created internals of a
+    node and would mask defects that only show on nodes nobody has looked at yet."""
     global CUR
     ex = Exec()
     ex.family = family
     ex.call = call
     ex.planspec = plan.spec
-    ex.pre = rec.snapshot()
+    ex.pre = pre if pre is not None else rec.snapshot()
     rec.start(plan, snaps_on)
     exc = None
     CUR = rec
@@ -469,7 +494,7 @@ def run_call(rec, family, call, plan, snaps_on=True):
 def execute(family, ch, call, planspec, snaps_on=True):
     nodes = materialise(family, ch)
     rec = Rec(nodes)
-    return run_call(rec, family, call, Plan(planspec), snaps_on)
+    return run_call(rec, family, call, Plan(planspec), snaps_on, pre=M.snap_of(ch))
 
 
 # ================================================================ monitors
